@@ -63,6 +63,8 @@ func execOp(op string) result {
 	case "sr":
 		call := sx.PrepSR(f) // parsed outside the measured window
 		run = func() (string, string) { return call(), "" }
+	case "sk":
+		run = func() (string, string) { return sx.ExecSK(f), "" }
 	case "j":
 		run = func() (string, string) { return execJ(f), "" }
 	case "m":
@@ -76,6 +78,7 @@ func execOp(op string) result {
 	}
 	var m0, m1 runtime.MemStats
 	zcDecodes = 0
+	lastMisuse = nil
 	runtime.ReadMemStats(&m0)
 	t0 := time.Now()
 	ans, real := run()
@@ -84,7 +87,12 @@ func execOp(op string) result {
 	res := result{answer: ans, real: real, alloc: m1.TotalAlloc - m0.TotalAlloc, micros: el.Microseconds(), decodes: zcDecodes}
 	if ans == "panic" || strings.HasPrefix(real, "panic") || strings.Contains(ans, "panic") {
 		res.pmsg = panicSite(op)
+	} else if len(lastMisuse) > 0 {
+		res.pmsg = "MISUSE chain-contract: " + lastMisuse[0]
+	} else if c := sx.TakeChanged(); c != "" {
+		res.pmsg = "MISUSE retained-result-changed: " + c
 	}
+	sx.TakeChanged()
 
 	return res
 }
@@ -579,11 +587,35 @@ var dCatalogue = []string{
 	"q u16 0 0 0 0 ( k 0 )",
 	"v u64 0 0",
 	"c d0 1",
+	"n 2 R v u8 0 0 R",
+	"g d1 y g d4 n 4 g d0 R",
+	"D n 1 D A 0 W 1 0 W 0 1 n 1 A 1 D n 1",
+	"n 1 W 1 1 D",
+	"q u8 1 0 0 1 ( g d1 v u8 0 0 R ) W 1 0",
+	"o d1 [ ( 1 c d1 1 n 2 R ) ( 2 g d1 y A 1 ) ] D",
+	"v u8 2 4 D",
+	"s u8 0 2 D",
+	"p [ ( 3 c d4 3 v u8 0 0 ) ] D",
 }
 
 var lpToks = []string{"u8", "u16", "u32"}
 
 func randLeaf(rng *hx.Rng) string {
+	if rng.Chance(1, 8) {
+		// the helpers of the chain that read nothing: RemainingBytes, Do, GetObjectType, AbortIf, WithValidation
+		switch rng.Intn(6) {
+		case 0:
+			return "R"
+		case 1:
+			return "D"
+		case 2:
+			return "g " + hx.Pick(rng, []string{"d0", "d1", "d4"})
+		case 3:
+			return "A " + hx.Pick(rng, []string{"0", "0", "0", "1"})
+		default:
+			return "W " + hx.Pick(rng, []string{"0", "1"}) + " " + hx.Pick(rng, []string{"0", "0", "0", "1"})
+		}
+	}
 	switch rng.Intn(12) {
 	case 0:
 		return "n " + strconv.Itoa(hx.Pick(rng, []int{1, 2, 4, 8}))
@@ -992,6 +1024,45 @@ func randChunks(rng *hx.Rng, n int) string {
 	}
 }
 
+// readerTok is the reader of an "sr" request: a chunk list, now and then a reader that returns io.EOF together with
+// its last bytes ("!") or that breaks with another error after K bytes ("@K").
+func readerTok(rng *hx.Rng, n int) string {
+	t := randChunks(rng, n)
+	if rng.Chance(1, 6) {
+		t += "!"
+	}
+	if rng.Chance(1, 8) {
+		t += "@" + strconv.Itoa(rng.Intn(n+2))
+	}
+
+	return t
+}
+
+// seekProg cuts a reader program into runs with Offset / BytesRead / Skip / GoTo calls in between.
+func seekProg(rng *hx.Rng, rp []sx.ROp, n int) string {
+	var s []string
+	for len(rp) > 0 {
+		k := rng.Range(1, len(rp))
+		s = append(s, "run", "(", sx.ShowR(rp[:k]), ")")
+		rp = rp[k:]
+		switch rng.Intn(6) {
+		case 0:
+			s = append(s, "off", "br")
+		case 1:
+			s = append(s, "skip", strconv.Itoa(rng.Intn(4)), "br")
+		case 2:
+			s = append(s, "skip", strconv.Itoa(-rng.Intn(6)), "off")
+		case 3:
+			s = append(s, "goto", strconv.Itoa(hx.Pick(rng, []int{0, rng.Intn(n + 1), n, n + 3, -1})), "br", "off")
+		case 4:
+			s = append(s, "br")
+		}
+	}
+	s = append(s, "off", "br")
+
+	return strings.Join(strings.Fields(strings.Join(s, " ")), " ")
+}
+
 // hostileR derives reader programs that do not match what was written.
 func hostileR(rng *hx.Rng, r []sx.ROp) []sx.ROp {
 	out := append([]sx.ROp(nil), r...)
@@ -1011,7 +1082,7 @@ func hostileR(rng *hx.Rng, r []sx.ROp) []sx.ROp {
 	case 2:
 		o = sx.ROp{K: "peek", LPt: hx.Pick(rng, lps)}
 	case 3:
-		o = sx.ROp{K: "ows", LPt: hx.Pick(rng, lps), From: hx.Pick(rng, []string{"id", "u64", "a32", "half", "fail"})}
+		o = sx.ROp{K: "ows", LPt: hx.Pick(rng, lps), From: hx.Pick(rng, []string{"id", "idc", "u64", "a32", "half", "fail"})}
 	case 4:
 		o = sx.ROp{K: "obj", N: hx.Pick(rng, []int{0, 8, 9, 32, 33, 5}), From: hx.Pick(rng, []string{"id", "u64", "a32", "half"})}
 	case 5:
@@ -1033,6 +1104,8 @@ func inputLen(f []string) int {
 		h = f[1]
 	case "sr":
 		h = f[2]
+	case "sk":
+		h = f[1]
 	case "m", "x":
 		h = f[3]
 	case "tu":
@@ -1093,12 +1166,18 @@ func oracle(r *hx.Run, op string, res result, mut string) {
 
 		return
 	}
+	if strings.HasPrefix(res.pmsg, "MISUSE ") {
+		// the chain helpers (Do, AbortIf, WithValidation, GetObjectType) broke their contract as seen by the interpreter
+		kind, detail, _ := strings.Cut(res.pmsg[7:], ": ")
+		r.Fail(kind, fmt.Sprintf("%s; op: %s", detail, short), map[string]string{"oracle": kind, "op": f[0], "prims": primKinds(f)})
+	}
 	obs := res.answer
 	if f[0] == "x" {
 		obs = res.real
 	}
 	g := strings.Fields(obs)
-	if len(g) >= 2 && g[0] == "ok" {
+	if len(g) >= 2 && f[0] != "sk" && (g[0] == "ok" || (g[0] == "err" && f[0] == "d")) {
+		// "d": the offset Done() reports next to an error is a reported count as well
 		if c, err := strconv.Atoi(g[1]); err == nil && c > n {
 			r.Fail("consumed-le", fmt.Sprintf("reported %d consumed bytes of %d; op: %s", c, n, short), map[string]string{"oracle": "consumed", "op": f[0], "prims": primKinds(f)})
 		}
@@ -1143,10 +1222,7 @@ func oracle(r *hx.Run, op string, res result, mut string) {
 	// the interpreter (Deserializer sequences, stream collections): never more than 64 per input byte + 1024
 	iters := res.decodes
 	if (f[0] == "d" || f[0] == "sr") && len(g) >= 2 {
-		idx := 1
-		if g[0] == "ok" || f[0] == "sr" {
-			idx = 2
-		}
+		idx := 2
 		if len(g) > idx {
 			if v, err := strconv.ParseInt(g[idx], 10, 64); err == nil {
 				iters = v
@@ -1380,7 +1456,17 @@ func main() {
 			rp = hostileR(rng, rp)
 			mut += "+prog"
 		}
-		b.emit("sr "+randChunks(rng, len(data))+" "+hx.Hex(data)+" "+sx.ShowR(rp), mut)
+		if rng.Chance(1, 6) {
+			// the same calls made by the callback of ReadObjectFromReader
+			k := rng.Intn(len(rp) + 1)
+			rp = append(append(append([]sx.ROp(nil), rp[:k]...), sx.ROp{K: "ofr", Item: rp[k:]}), []sx.ROp(nil)...)
+			mut += "+ofr"
+		}
+		b.emit("sr "+readerTok(rng, len(data))+" "+hx.Hex(data)+" "+sx.ShowR(rp), mut)
+		if i%5 == 0 {
+			// the same stream through a stream.ByteReader, the program cut into pieces with Offset / BytesRead / Skip / GoTo in between
+			b.emit("sk "+hx.Hex(data)+" "+seekProg(rng, rp, len(data)), mut+"+seek")
+		}
 		if i%40 == 0 {
 			for _, q := range wLayout(wp) {
 				vs := []uint64{1 << 24, 1 << 28, 1 << 31, 1<<32 - 1}
